@@ -12,6 +12,7 @@ CONSTANTS N = 4
  VCBatchPolicy = "none"
  AggBatchFor = "none"
  MemoVerifier = FALSE
+ DomainCache = FALSE
  ReplayPolicy = "admit"
 INVARIANTS Emit
 CHECK_DEADLOCK FALSE
